@@ -1,6 +1,7 @@
 import functools
 import logging
 import multiprocessing
+import multiprocessing.resource_tracker
 import os
 import signal
 import sys
@@ -163,6 +164,14 @@ class ProcessExecutor:
             future for future in self._pending_future_to_thunk.keys()
             if future.id not in self._running_id_to_future_and_process
         ][:start_count]
+        if (len(futures_to_start) > 0 and hasattr(signal, 'pthread_sigmask')
+                and self.mp_context.get_start_method() != 'fork'):
+            # Starting the first process makes multiprocessing start
+            # its resource tracker, which leaves SIGINT unblocked in the
+            # calling thread: that must not happen while SIGINT is
+            # blocked for the start of a process below, or that
+            # process starts unprotected from a Ctrl-C.
+            multiprocessing.resource_tracker.ensure_running()
         for future in futures_to_start:
             thunk = self._pending_future_to_thunk[future]
             process = self.mp_context.Process(  # type: ignore[attr-defined]
